@@ -4,6 +4,8 @@ Three workloads:
   sweep   : typed API catalogue x argument slot x boundary/adversarial value (others valid)
   program : random table-operation programs on corrupted (invalid) table collections
   oom     : allocation-failure enumeration through the LD_PRELOAD shim (thorough tier)
+  memcheck: slices of sweep + program re-run on the plain (gcc -O2) build under valgrind memcheck, every result pushed
+            through a definedness sink (lib/props/c09_memcheck.py): use of uninitialised memory, which ASan cannot see
 The deciding oracle is the worker's process status + sanitizer log (runner) and, in-process, that every
 call returns or raises an Exception (SystemError = extension broke the C-API contract = violation);
 for slots whose valid range is documented, out-of-range identifiers must raise.
@@ -1378,9 +1380,38 @@ def run_repotests(case, ctx):
                       f"(last test seen: {test[-1] if test else '?'})", out[max(0, pos - 300):pos + 2500])
 
 
+_MEMCHECK = []
+
+
+def setup(ctx):
+    """Start this worker's companion valgrind process (lib/props/c09_memcheck.py); it works through its slice of the
+    catalogue while the worker runs its own cases on the ASan build, and is collected by teardown()."""
+    only = os.environ.get("VERIF_C09_KINDS")
+    if ctx.replay or ctx.attempt > 0 or (only and "memcheck" not in only.split(",")):
+        return
+    from lib.props import c09_memcheck
+    n = min(ctx.nshards, 6) if ctx.tier == "quick" else ctx.nshards
+    if ctx.shard >= n:
+        return
+    case = {"gen": "memcheck", "slice": ctx.shard + n * (ctx.seed % 1000), "of": n,
+            "budget": 35 if ctx.tier == "quick" else 900, "tier": ctx.tier, "seed": ctx.seed, "idx": -1 - ctx.shard}
+    h = c09_memcheck.start_memcheck(case, ctx)
+    if h is not None:
+        _MEMCHECK.append(h)
+
+
+def teardown(ctx):
+    from lib.props import c09_memcheck
+    while _MEMCHECK:
+        c09_memcheck.collect_memcheck(_MEMCHECK.pop(), ctx)
+
+
 def run_case(case, ctx):
     if case["gen"] == "repotests":
         return run_repotests(case, ctx)
+    if case["gen"] == "memcheck":
+        from lib.props import c09_memcheck
+        return c09_memcheck.run_memcheck(case, ctx)
     if not hasattr(ctx, "step"):
         ctx.step = lambda d: None
     if case["gen"] == "sweep":
